@@ -51,10 +51,18 @@ def app_stream(rng):
     return n, t
 
 
-def flow_frames(rng, e, sp, dp, cookie, complete=True):
-    """(frames, kinds) of a client: SYN, data segments (ack = cookie+1), optional FIN|ACK."""
+def flow_frames(rng, e, sp, dp, cookie, complete=True, alt_ack=None):
+    """(frames, kinds) of a client: SYN, data segments (ack = cookie+1), optional FIN|ACK.
+    alt_ack: an acknowledgement number that later segments of this (by then validated) flow sometimes carry instead of
+    their own - another connection's cookie + 1: a validated flow may acknowledge anything, and whatever it acknowledges
+    names nobody else's connection."""
     name, stream = app_stream(rng)
     segs = cut(stream, sorted(rng.randrange(0, len(stream) + 1) for _ in range(rng.choice([0, 1, 2, 3]))))
+    if rng.random() < 0.12:
+        # a connection that starts with bytes completing no signature (the matcher gives up) and then sends a request in a
+        # segment of its own: never answered - whatever other connections do in between
+        junk = rng.choice([b"OPTIONS sip:nm SIP/2.0\r\nVia: SIP/2.0/TCP nm;branch=foo\r\n", bytes(rng.randrange(1, 256) | 0x80 for _ in range(rng.randrange(9, 60))), b"\x16\x03\x01\x00\xa5\x01\x00\x00\xa1\x03\x03" + bytes(20)])
+        name, segs = "junk_then_" + name, [junk] + [x for x in segs if x]
     if not complete and len(segs) > 1:
         segs = segs[:rng.randrange(1, len(segs))]     # mid-request
     isn = rng.getrandbits(32)
@@ -64,8 +72,11 @@ def flow_frames(rng, e, sp, dp, cookie, complete=True):
         fs.append(fs[0])             # byte-identical retransmission of the SYN
         kinds.append("syn")
     seq = (isn + 1) & 0xFFFFFFFF
-    for s in segs:
-        fs.append(e.tcp(sp, dp, seq, (cookie + 1) & 0xFFFFFFFF, PSH | ACK, s))
+    for i, s in enumerate(segs):
+        ackn = (cookie + 1) & 0xFFFFFFFF
+        if i > 0 and alt_ack is not None and rng.random() < 0.3:
+            ackn = alt_ack
+        fs.append(e.tcp(sp, dp, seq, ackn, PSH | ACK, s))
         kinds.append("data")
         seq = (seq + len(s)) & 0xFFFFFFFF
     if complete and rng.random() < 0.5:
@@ -135,7 +146,7 @@ def triple(ctx, cfg, forced=None):
     H, Hk, Hflow = [], [], []
     per_flow = []
     for j, ((oe, osp, odp), ck) in enumerate(zip(others, cks)):
-        fs, ks, nm = flow_frames(rng, oe, osp, odp, ck, complete=rng.random() < 0.6)
+        fs, ks, nm = flow_frames(rng, oe, osp, odp, ck, complete=rng.random() < 0.6, alt_ack=(ckF + 1) & 0xFFFFFFFF)
         per_flow.append((fs, ks, j))
     # merge the other flows among themselves, order-preserving
     idx = [0] * len(per_flow)
